@@ -90,6 +90,23 @@ class Exec(ExprMixin, CallMixin, BuiltinMixin, StmtMixin):
         cur = reg.get(rec.t.get_id(), ('<console>',)) if getattr(rec, 't', None) is not None else ('<unknown>',)
         return VBool(cur == (lis.t.get_id(),))
 
+    def prim_same_truth(self, args, path, node):
+        a = self.truth(self.spec_call('sem', [self.coerce(args[0], NODE)], path, node), path)
+        b = self.truth(self.spec_call('den', [self.coerce(args[1], ELEM)], path, node), path)
+        return VBool(a == b)
+
+    def prim_kids(self, args, path, node):
+        return VElemList(self.ctx.sorts.Elem.kids(self.coerce(args[0], ELEM).t))
+
+    def prim_first(self, args, path, node):
+        return VElem(self.ctx.sorts.ElemList.head(self.coerce(args[0], ELEMLIST).t))
+
+    def prim_rest(self, args, path, node):
+        return VElemList(self.ctx.sorts.ElemList.tail(self.coerce(args[0], ELEMLIST).t))
+
+    def prim_is_empty(self, args, path, node):
+        return VBool(self.ctx.sorts.ElemList.is_ENil(self.coerce(args[0], ELEMLIST).t))
+
     def prim_owned(self, args, path, node):
         N = self.ctx.sorts.Node
         return VBool(N.owned(self.coerce(args[0], NODE).t))
